@@ -42,8 +42,12 @@ func (t *prefixTr) invariantVal(v ssa.Value) *SExpr {
 	if val == nil || val.T == "" {
 		return nil
 	}
-	t.n++
-	name := fmt.Sprintf("$inv%d", t.n)
+	// a readable, collision-free name for the evidence: the SSA name of the value
+	name := "$" + v.Name()
+	if prev, ok := t.env[name]; ok && prev != val {
+		t.n++
+		name = fmt.Sprintf("%s#%d", name, t.n)
+	}
 	t.env[name] = val
 	return &SExpr{Kind: SIdent, Name: name}
 }
